@@ -22,12 +22,12 @@ from vf.props.valuecommon import Guard, exc_bucket, make_env, rel_err
 
 LEVEL = "exploration"
 RULE = (
-    "Hypothesis: forms with 1-2 arguments whose integrand is either multilinear by construction (LinGen: linear "
+    "Hypothesis: forms with 1-3 arguments whose integrand is either multilinear by construction (LinGen: linear "
     "operators, derivatives, contractions with argument-free factors from the grammar, conditionals with "
     "argument-free conditions, variables) or such a term broken by one edit (argument-free addend, argument-free "
     "non-zero list-tensor component, square, product with a second occurrence of the argument, nonlinear function, "
     "abs, division by the argument, argument in a condition, branches of different arity, terms with different "
-    "argument sets, missing/spurious conjugation in complex mode); real and complex mode. The form goes through "
+    "argument sets, missing/spurious conjugation in complex mode, also of the third argument); real and complex mode. The form goes through "
     "compute_form_data; non-trivial = accepted and numerically verified multilinear with a non-zero value, or a broken "
     "program (numerically non-linear) that was rejected; distinct = distinct (recipe, mode)."
 )
@@ -64,15 +64,27 @@ def cases(draw, tier):
     world = draw(worlds(prof))
     G = Gen(draw, world, prof)
     L = LinGen(G, cplx=cplx)
-    nargs = draw(st.sampled_from([1, 2, 2]))
-    argnames = ["a0", "a1"][:nargs]
+    nargs = draw(st.sampled_from([1, 2, 2, 2, 3]))
+    if nargs == 3:
+        # a third argument (number 2), as in derivative(a(u; v, w), u): linear, never conjugated
+        world["fields"]["a2"] = dict(world["fields"][draw(st.sampled_from(["a0", "a1"]))], number=2)
+    argnames = ["a0", "a1", "a2"][:nargs]
     for n in ("a0", "a1")[nargs:]:
         world["fields"].pop(n, None)
-    t = L.term(argnames, draw(st.integers(1, 2)))
+
+    def third():
+        return L.contract(*L.lin("a2", 1), conj_arg=False)
+
+    def mk_term(depth):
+        if nargs <= 2:
+            return L.term(argnames, depth)
+        return ["mul", L.term(argnames[:2], depth), third()]
+
+    t = mk_term(draw(st.integers(1, 2)))
     kind = draw(st.sampled_from(["linear", "linear", "broken", "broken"]))
     brk = None
     if kind == "broken":
-        brk = draw(st.sampled_from(BREAKS))
+        brk = draw(st.sampled_from(BREAKS + (["conj_third"] * 6 if (cplx and nargs == 3) else [])))
         a = draw(st.sampled_from(argnames))
         s = scalar_of(G, L, a)
         free = G.expr((), (), 1)
@@ -120,8 +132,15 @@ def cases(draw, tier):
                 t = ["mul", ["conj", scalar_of(G, L, "a0")], ["conj", scalar_of(G, L, "a1")]]
             else:
                 t = ["pow", t, ["lit", 2]]
+        elif brk == "conj_third":
+            # antilinear in the argument numbered 2
+            t = ["mul", L.term(argnames[:2], 1), ["conj", third()]]
+            if draw(st.booleans()):
+                t = ["conj", ["mul", ["conj", L.term(argnames[:2], 1)], third()]]
         elif brk == "power":
             t = ["pow", t, ["lit", draw(st.sampled_from([2, 3, 0.5]))]] if not cplx else ["pow", t, ["lit", 2]]
+    if nargs == 3 and brk in ("list_affine", "noconj", "conj_trial"):
+        t = ["mul", t, third()]
     # further (well-formed) integrals on the same or other subdomains / with other metadata: the check has to look at
     # every integrand of the form, wherever grouping puts it
     from vf.forms import draw_md
@@ -130,7 +149,7 @@ def cases(draw, tier):
     for _ in range(draw(st.sampled_from([0, 0, 1, 2]))):
         integrals.insert(draw(st.integers(0, len(integrals))),
                          {"itype": "dx", "sid": draw(st.sampled_from([None, None, 1])), "md": draw_md(draw),
-                          "expr": L.term(argnames, 1)})
+                          "expr": mk_term(1)})
     return {"world": world, "vars": G.vars, "integrals": integrals,
             "cplx": cplx, "kind": kind, "break": brk, "env_seed": draw(st.integers(0, 10**6))}
 
@@ -218,7 +237,7 @@ def check_case(case):
         nonzero |= nz
     linear = defect < 1e-7
     labels = ["complex" if cplx else "real", "accepted" if accepted else "rejected", "kind:" + case["kind"],
-              "integrals:%d" % len(exprs)]
+              "integrals:%d" % len(exprs), "arguments:%d" % len(args)]
     if case["break"]:
         labels.append("break:" + case["break"])
     if accepted and not linear:
